@@ -19,6 +19,7 @@ import (
 	"github.com/koordinator-sh/koordinator/apis/extension"
 	slov1alpha1 "github.com/koordinator-sh/koordinator/apis/slo/v1alpha1"
 	"github.com/koordinator-sh/koordinator/pkg/slo-controller/noderesource/framework"
+	"github.com/koordinator-sh/koordinator/pkg/util/sloconfig"
 )
 
 // Wire format: see coq/C09/mid/Extract.v.
@@ -165,6 +166,12 @@ func vtC09MExec(x []int64) []int64 {
 			pod.Status.Phase = corev1.PodSucceeded
 		case 3:
 			pod.Status.Phase = corev1.PodFailed
+		case 5: // terminating, still running
+			pod.Status.Phase = corev1.PodRunning
+			pod.DeletionTimestamp = &metav1.Time{Time: vtC09MNow}
+		case 6:
+			pod.Status.Phase = corev1.PodPending
+			pod.DeletionTimestamp = &metav1.Time{Time: vtC09MNow}
 		default:
 			pod.Status.Phase = corev1.PodUnknown
 		}
@@ -212,6 +219,42 @@ func vtC09MExec(x []int64) []int64 {
 		}
 		podList.Items = append(podList.Items, pod)
 	}
+
+	if len(c.in)-c.i >= 8 {
+		ak, a1, a2, a3 := c.next(), c.next(), c.next(), c.next()
+		k1, h1, k2, h2 := c.next(), c.next(), c.next(), c.next()
+		switch ak {
+		case 0:
+		case 1:
+			data, err := json.Marshal(&configuration.ColocationStrategy{
+				MidStaticCPUReservedPercent:    vtC09MPct(a1),
+				MidStaticMemoryReservedPercent: vtC09MPct(a2),
+				MidUnallocatedPercent:          vtC09MPct(a3),
+			})
+			if err != nil {
+				panic(err)
+			}
+			node.Annotations[extension.AnnotationNodeColocationStrategy] = string(data)
+		case 2:
+			node.Annotations[extension.AnnotationNodeColocationStrategy] = `{"midUnallocatedPercent": 3`
+		default:
+			node.Annotations[extension.AnnotationNodeColocationStrategy] = `{"midUnallocatedPercent":"all"}`
+		}
+		lbl := func(key string, kind, h int64) {
+			switch kind {
+			case 0:
+			case 1:
+				node.Labels[key] = fmt.Sprintf("%d.%02d", h/100, h%100)
+			case 2:
+				node.Labels[key] = "abc"
+			default:
+				node.Labels[key] = "-0.30"
+			}
+		}
+		lbl(extension.LabelMidStaticCPUReservedRatio, k1, h1)
+		lbl(extension.LabelMidStaticMemoryReservedRatio, k2, h2)
+	}
+	strategy = sloconfig.GetNodeColocationStrategy(&configuration.ColocationCfg{ColocationStrategy: *strategy}, node)
 
 	oldClk := clk
 	clk = vtclock.NewFakeClock(vtC09MNow)
@@ -328,7 +371,7 @@ func vtC09MGen(r *rand.Rand, i int) (string, []int64) {
 	np := r.Intn(6)
 	in = append(in, int64(np))
 	for p := 0; p < np; p++ {
-		phase := []int64{1, 1, 1, 1, 0, 0, 2, 3, 4}[r.Intn(9)]
+		phase := []int64{1, 1, 1, 1, 0, 0, 2, 3, 4, 5, 5, 6}[r.Intn(12)]
 		plabel := []int64{0, 0, 0, 1, 1, 2, 3, 4, 5}[r.Intn(9)]
 		pval := int64(-1)
 		if r.Intn(3) == 0 {
@@ -337,6 +380,24 @@ func vtC09MGen(r *rand.Rand, i int) (string, []int64) {
 		qlabel := []int64{0, 0, 1, 2, 3, 3, 4, 5, 6}[r.Intn(9)]
 		kube := int64(1 + r.Intn(3))
 		in = append(in, phase, plabel, pval, qlabel, kube, amt(capCPU/int64(np+1)), amt(capMem/int64(np+1)), 0, 0, 0, 0, 0)
+	}
+	if r.Intn(2) == 0 {
+		in = append(in, 0, -1, -1, -1, 0, 0, 0, 0)
+	} else {
+		ratio := func() int64 {
+			switch r.Intn(5) {
+			case 0:
+				return 0
+			case 1:
+				return 100
+			case 2:
+				return 29
+			default:
+				return int64(r.Intn(101))
+			}
+		}
+		in = append(in, []int64{0, 1, 1, 2, 3}[r.Intn(5)], pct(), pct(), pct(),
+			[]int64{0, 1, 1, 2, 3}[r.Intn(5)], ratio(), []int64{0, 1, 1, 2, 3}[r.Intn(5)], ratio())
 	}
 	return style, in
 }
